@@ -1,8 +1,10 @@
 CONSTANT W = 64
+CONSTANT EXT = 0
 CONSTANT L = 6
 INIT Init
 NEXT Next
 INVARIANT ExecFunctional
 PROPERTY PureStep
 PROPERTY CloneStep
+PROPERTY SerStep
 CHECK_DEADLOCK FALSE
